@@ -490,3 +490,45 @@ Proof.
     rewrite Enc, Hv. change (5 <=? 4) with false. cbv iota. apply files_of_raw5.
     clear -Ff. induction Ff as [|f fl (_ & _ & _ & _ & _ & H6 & _) F IH]; constructor; assumption.
 Qed.
+
+(* ------------------------------------------------------------------ non-vacuity: a concrete version 5 program *)
+Definition ex5_enc : W.enc := W.mkEnc true 5 4.
+Definition ex5_ls : W.strtab := [[x64]; [x66; x2e; x63]; [x69; x6e; x63]].   (* .debug_line_str: "d" "f.c" "inc" *)
+Definition ex5_md5 : list byte := [x00; x01; x02; x03; x04; x05; x06; x07; x08; x09; x0a; x0b; x0c; x0d; x0e; x0f].
+Definition ex5_info (src : list byte) : W.finfo := W.mkFinfo 77 4096 ex5_md5 (Some (W.LStr src)).
+
+(* new(v5, DWARF64, address size 4; names as .debug_line_str references; source_info with MD5 and source);
+   file_has_* = true; add_directory("inc"); add_file("inc", dir 1, info) *)
+Definition ex5_prog : res W.prog :=
+  let* p := W.lp_new false ex5_enc ex_lenc (W.LLineStrRef 0) None (W.LLineStrRef 1)
+              (Some (ex5_info [x69; x6e; x74; x0a])) in
+  let p := W.set_flags true true true true p in
+  let* (p, d) := W.add_directory p (W.LLineStrRef 2) in
+  let* (p, _) := W.add_file p (W.LLineStrRef 2) d (Some (ex5_info [x79])) in
+  Ok p.
+
+Definition ex5_p0 : W.prog :=
+  Eval vm_compute in match ex5_prog with Ok p => p | _ => P2.fresh ex_lenc end.
+
+Lemma ex5_prog_ok : ex5_prog = Ok ex5_p0 /\
+  W.p_insns ex5_p0 = [] /\ W.p_prev ex5_p0 = W.wrow_initial ex5_enc ex_lenc /\ W.p_in_seq ex5_p0 = false /\
+  W.p_enc ex5_p0 = ex5_enc /\ W.p_lenc ex5_p0 = ex_lenc /\
+  (exists d0 ds f0 fs, W.p_dirs ex5_p0 = d0 :: ds /\ W.p_files ex5_p0 = f0 :: fs) /\
+  length (W.p_dirs ex5_p0) = 2%nat /\ length (W.p_files ex5_p0) = 2%nat /\
+  Forall (dir5_ok (W.e_fmt64 ex5_enc) ex5_ls [] (dform_of ex5_p0)) (W.p_dirs ex5_p0) /\
+  Forall (file5_ok ex5_p0 ex5_ls [] (fform_of ex5_p0) (W.source_form (W.p_files ex5_p0))) (W.p_files ex5_p0).
+Proof.
+  split; [vm_compute; reflexivity|]. split; [reflexivity|]. split; [reflexivity|]. split; [reflexivity|].
+  split; [reflexivity|]. split; [reflexivity|]. split; [do 4 eexists; split; reflexivity|].
+  split; [reflexivity|]. split; [reflexivity|]. split.
+  - unfold ex5_p0, dform_of. cbn [W.p_dirs].
+    constructor; [|constructor; [|constructor]]; (split; [reflexivity|]);
+      cbn; eexists; (split; [reflexivity|]); cbn; unfold two64; lia.
+  - assert (Hone : forall f, In f (W.p_files ex5_p0) ->
+              file5_ok ex5_p0 ex5_ls [] (fform_of ex5_p0) (W.source_form (W.p_files ex5_p0)) f).
+    { intros f [<- | [<- | []]]; unfold file5_ok; cbn; repeat split;
+        first [ reflexivity | (unfold two64; lia)
+              | (eexists; split; [reflexivity | cbn; unfold word_lim, two64; lia])
+              | (intros _; eexists; repeat split; reflexivity) ]. }
+    apply Forall_forall. exact Hone.
+Qed.
